@@ -34,6 +34,22 @@ ASSUMPTIONS = [
 FLAG_STYLE = ["python"]   # set per case by check(): the type of the reverse flags / face numbers inside the links
 
 
+def _dataset(nfaces, axes, labels=None, ds_facedim="face"):
+    import xarray as xr
+
+    N = 2
+    coords = {}
+    gc = {}
+    for a in axes:
+        c, l = a.lower() + "c", a.lower() + "l"
+        coords[c] = (c, np.arange(N) + 0.5)
+        coords[l] = (l, np.arange(N) * 1.0)
+        gc[a] = {"center": c, "left": l}
+    coords[ds_facedim] = (ds_facedim, np.arange(nfaces) if labels is None else np.asarray(labels))
+    coords["tile_id"] = (ds_facedim, np.arange(nfaces) if labels is None else np.asarray(labels))
+    return xr.Dataset({"face_area": ((ds_facedim,), np.arange(nfaces) if labels is None else np.asarray(labels))}, coords=coords), gc
+
+
 def build_grid(nfaces, axes, table_json, facedims=("face",), ds_facedim="face", labels=None):
     import xarray as xr
     from xgcm import Grid
@@ -215,7 +231,8 @@ def strategy_impl(draw, tier):
     if slots:
         for _ in range(nedits):
             edits.append([list(draw(st.sampled_from(slots))), draw(st.sampled_from(vals))])
-    special = draw(st.sampled_from(["none"] * 8 + ["two-facedims", "absent-facedim", "facedim-is-aux-coordinate", "facedim-is-data-variable"]))
+    special = draw(st.sampled_from(["none"] * 8 + ["two-facedims", "absent-facedim", "facedim-is-aux-coordinate", "facedim-is-data-variable",
+                                                   "second-facedim-empty", "second-facedim-empty-first", "second-facedim-none", "absent-facedim-empty"]))
     # the order in which the faces (and the axes of a face) are listed is part of the input
     order = draw(st.permutations(sorted(table)))
     # the labels of the dataset's face coordinate: 0..n-1, or other integers (1-based tiles, a subset of a larger set);
@@ -253,7 +270,17 @@ def check(case, ctx):
         want = assert_table(nfaces, axes, table, "random table", labels=labels, elsewhere_first=bool(case.get("elsewhere_first")))
     else:
         try:
-            if special == "two-facedims":
+            if special.startswith("second-facedim") or special == "absent-facedim-empty":
+                # a second face-dimension entry that holds no links is still a second face dimension
+                from xgcm import Grid
+
+                ds_, gc_ = _dataset(nfaces, axes, labels)
+                main = gen.table_to_xgcm(table, "face", flag_style=FLAG_STYLE[0])
+                other = "bogus_dim" if special == "absent-facedim-empty" else "tile_id"
+                empty = None if special == "second-facedim-none" else {}
+                fc_ = {other: empty, **main} if special == "second-facedim-empty-first" else {**main, other: empty}
+                Grid(ds_, coords=gc_, face_connections=fc_, autoparse_metadata=False, periodic=False)
+            elif special == "two-facedims":
                 build_grid(nfaces, axes, table, facedims=("face", "tile"))
             elif special == "facedim-is-aux-coordinate":
                 build_grid(nfaces, axes, table, facedims=("tile_id",), labels=labels)
